@@ -106,6 +106,13 @@ def _exceptions(ctx):
     ok = rc == 0 and res["C11-IN-SCOPE"] == []
     ctx.oblige("facts:no-discipline-violation-in-scope(evaluated)", "theorem-support", ok,
                "in scope: %s" % res["C11-IN-SCOPE"] if rc == 0 else out[-1500:])
+    dbf = ctx.facts.get("lockfacts.db") or {}
+    ctx.cov["search_write_set"] = dict(guard=dbf.get("guard"), unguarded_writes=dbf.get("unguardedWrites"),
+                                       guarded_writes=[w["target"] for w in (dbf.get("guardedWrites") or [])][:40],
+                                       reachable_functions=len(dbf.get("reachable") or []), shared_types=dbf.get("sharedTypes"))
+    ctx.oblige("facts:search-writes-no-shared-state-outside-the-lazy-build(evaluated)", "theorem-support",
+               bool(dbf) and dbf.get("guardFound") is True and not dbf.get("unguardedWrites"),
+               "unguarded writes: %s" % json.dumps(dbf.get("unguardedWrites")))
 
 
 def _first_race(stderr):
